@@ -4,9 +4,9 @@ package chain
 
 import (
 	"bytes"
+	"crypto/sha256"
 	"encoding/binary"
 	"math/big"
-	"crypto/sha256"
 
 	"github.com/piotrnar/gocoin/lib/btc"
 	"github.com/piotrnar/gocoin/lib/others/zzverif"
